@@ -568,6 +568,8 @@ def expr_setup(case):
         names = tuple(spec["vars"])
         names = tuple(names[i] for i in rs.permutation(len(names)))
         data = sr.gen(rs, [sizes[n] for n in names])
+        if spec.get("param") == "var":
+            names = ()  # the operand is the bare parameter: it mentions no discrete variable
         leaves.append((names, data, spec.get("param")))
     return sr, sizes, leaves
 
@@ -658,12 +660,18 @@ def expr_free(leaves, expr):
         return expr_free(leaves, expr[1]) - {expr[2]}
 
 
+PARAM_OTHER_IS_SUM = [False]  # set per case: is the "other" parameter op the semiring's own sum (add_mul: tensor + w)
+
+
 def monomials(leaves, expr):
     """expr as a formal sum of products: list of variable sets, one per summand after full distribution
     (inner reductions are looked through: their summands minus the bound variables)"""
     k = expr[0]
     if k == "leaf":
-        return [frozenset(leaves[expr[1]][0])]
+        names, _, param = leaves[expr[1]]
+        if param == "other" and PARAM_OTHER_IS_SUM[0]:
+            return [frozenset(names), frozenset()]  # tensor (+) w : the summand w mentions no variable
+        return [frozenset(names)]
     if k in ("prod", "mul"):
         parts = expr[1] if k == "prod" else (expr[1], expr[2])
         acc = [frozenset()]
@@ -721,6 +729,7 @@ def check_expr(case, out):
 
     sr, sizes, leaves = expr_setup(case)
     expr = case["expr"]
+    PARAM_OTHER_IS_SUM[0] = sr.name == "add_mul"
     anyparam = any(p for _, _, p in leaves)
     points = PARAM_POINTS if anyparam else [{}]
     wv = Variable("w", Real)
